@@ -1664,16 +1664,7 @@ func (r *Regex) UnmarshalText(text []byte) error {
 // MatchReader reports whether the text returned by the RuneReader
 // contains any match of the regular expression re.
 func (r *Regex) MatchReader(reader io.RuneReader) bool {
-	// Read all runes into a string and match
-	var runes []rune
-	for {
-		rn, _, err := reader.ReadRune()
-		if err != nil {
-			break
-		}
-		runes = append(runes, rn)
-	}
-	return r.MatchString(string(runes))
+	return r.Match(readAllRunes(reader))
 }
 
 // FindReaderIndex returns a two-element slice of integers defining the
@@ -1682,16 +1673,7 @@ func (r *Regex) MatchReader(reader io.RuneReader) bool {
 // byte offset loc[0] through loc[1]-1.
 // A return value of nil indicates no match.
 func (r *Regex) FindReaderIndex(reader io.RuneReader) []int {
-	// Read all runes into a string and find
-	var runes []rune
-	for {
-		rn, _, err := reader.ReadRune()
-		if err != nil {
-			break
-		}
-		runes = append(runes, rn)
-	}
-	return r.FindStringIndex(string(runes))
+	return r.FindIndex(readAllRunes(reader))
 }
 
 // FindReaderSubmatchIndex returns a slice holding the index pairs
@@ -1701,16 +1683,7 @@ func (r *Regex) FindReaderIndex(reader io.RuneReader) []int {
 // package comment.
 // A return value of nil indicates no match.
 func (r *Regex) FindReaderSubmatchIndex(reader io.RuneReader) []int {
-	// Read all runes into a string and find
-	var runes []rune
-	for {
-		rn, _, err := reader.ReadRune()
-		if err != nil {
-			break
-		}
-		runes = append(runes, rn)
-	}
-	return r.FindStringSubmatchIndex(string(runes))
+	return r.FindSubmatchIndex(readAllRunes(reader))
 }
 
 // MatchReader reports whether the text returned by the RuneReader
@@ -1734,4 +1707,25 @@ func nextSearchPos(b []byte, pos int) int {
 		return pos + w
 	}
 	return pos + 1
+}
+
+// readAllRunes drains a RuneReader into a byte buffer whose offsets equal the
+// byte offsets of the input stream: a decoding error of width 1 (an ill-formed
+// byte, reported by readers as U+FFFD with size 1) is kept as one ill-formed
+// byte instead of being re-encoded as the 3-byte U+FFFD, so that reported
+// indices are stream offsets, as in package regexp.
+func readAllRunes(reader io.RuneReader) []byte {
+	var buf []byte
+	for {
+		rn, size, err := reader.ReadRune()
+		if err != nil {
+			break
+		}
+		if rn == utf8.RuneError && size == 1 {
+			buf = append(buf, 0xFF)
+			continue
+		}
+		buf = utf8.AppendRune(buf, rn)
+	}
+	return buf
 }
